@@ -58,13 +58,20 @@ type c18Fault struct {
 }
 
 type c18Scenario struct {
-	File  c18File  `json:"file"`
-	Cmd   string   `json:"cmd"` // write | check | plain
-	Fault c18Fault `json:"fault"`
+	File  c18File   `json:"file"`
+	More  []c18File `json:"more,omitempty"` // further files of the same invocation, in command-line order after File
+	Cmd   string    `json:"cmd"`            // write | check | plain
+	Fault c18Fault  `json:"fault"`
 }
 
+func (s c18Scenario) all() []c18File { return append([]c18File{s.File}, s.More...) }
+
 func (s c18Scenario) id() string {
-	return fmt.Sprintf("%s/%s/%s@%d:%s%d", s.File.Label, s.Cmd, s.Fault.Kind, s.Fault.Index, s.Fault.Errno, s.Fault.Fsize)
+	lab := s.File.Label
+	for _, f := range s.More {
+		lab += "+" + f.Label
+	}
+	return fmt.Sprintf("%s/%s/%s@%d:%s%d", lab, s.Cmd, s.Fault.Kind, s.Fault.Index, s.Fault.Errno, s.Fault.Fsize)
 }
 
 // ---------- library oracle: what the formatter does (the model's Section variables) ----------
@@ -152,7 +159,8 @@ type c18Run struct {
 	Target   c18State
 	TempName string
 	Temp     c18State
-	Extra    []string // unexpected directory entries
+	Others   map[string]c18State // final state of the further files of a multi-file invocation
+	Extra    []string            // unexpected directory entries
 	Stderr   string
 	LogTail  string
 }
@@ -233,7 +241,7 @@ func c18FdPath(arg string) string {
 
 // parseLog translates the strace log into the model's call list (only calls
 // that touch dir) and notes, per call, which occurrence of its syscall it was.
-func c18ParseLog(log string, dir, target string) (events []c18Event, exit int, signal string, startup map[string]int) {
+func c18ParseLog(log string, dir string, targets map[string]bool) (events []c18Event, exit int, signal string, startup map[string]int) {
 	exit = -2
 	mainPid := ""
 	startup = map[string]int{} // calls (by syscall name) that do not touch the target directory: runtime start-up, on the main thread
@@ -327,7 +335,7 @@ func c18ParseLog(log string, dir, target string) (events []c18Event, exit int, s
 			ev.Arg, _ = strconv.ParseInt(arg(2), 10, 64)
 		case "close":
 			abs = c18FdPath(arg(0))
-			if filepath.Base(abs) == target {
+			if targets[filepath.Base(abs)] {
 				ev.Call = "closer"
 			} else {
 				ev.Call = "closew"
@@ -492,6 +500,15 @@ func (env *c18Env) run(s c18Scenario) (*c18Run, error) {
 		return nil, err
 	}
 	dir, _ = filepath.EvalSymlinks(dir)
+	for _, f := range s.More {
+		fp := filepath.Join(dir, f.Name)
+		if err := os.WriteFile(fp, f.Content, 0o600); err != nil {
+			return nil, err
+		}
+		if err := os.Chmod(fp, os.FileMode(f.Mode)); err != nil {
+			return nil, err
+		}
+	}
 	tpath := filepath.Join(dir, s.File.Name)
 	if s.Fault.Kind != "missing" {
 		if err := os.WriteFile(tpath, s.File.Content, 0o600); err != nil {
@@ -528,6 +545,11 @@ func (env *c18Env) run(s c18Scenario) (*c18Run, error) {
 		args = append(args, "-c")
 	}
 	args = append(args, s.File.Name)
+	names := map[string]bool{s.File.Name: true}
+	for _, f := range s.More {
+		args = append(args, f.Name)
+		names[f.Name] = true
+	}
 	ctx, cancel := context.WithTimeout(context.Background(), 60*time.Second)
 	defer cancel()
 	cmd := exec.CommandContext(ctx, "strace", args...)
@@ -547,7 +569,7 @@ func (env *c18Env) run(s c18Scenario) (*c18Run, error) {
 		return nil, fmt.Errorf("no strace log: %v (%v) %s", err, runErr, stderr.String())
 	}
 	r := &c18Run{Stderr: stderr.String()}
-	r.Events, r.Exit, r.Signal, r.Startup = c18ParseLog(string(logb), dir, s.File.Name)
+	r.Events, r.Exit, r.Signal, r.Startup = c18ParseLog(string(logb), dir, names)
 	if r.Exit == -2 {
 		// fall back to the wait status of strace (which mirrors the tracee)
 		var ee *exec.ExitError
@@ -585,6 +607,11 @@ func (env *c18Env) run(s c18Scenario) (*c18Run, error) {
 		switch {
 		case e.Name() == s.File.Name && fi.Mode().IsRegular():
 			r.Target = st
+		case names[e.Name()] && fi.Mode().IsRegular():
+			if r.Others == nil {
+				r.Others = map[string]c18State{}
+			}
+			r.Others[e.Name()] = st
 		case c18TempRe.MatchString(e.Name()) && fi.Mode().IsRegular() && r.TempName == "":
 			r.TempName, r.Temp = e.Name(), st
 		default:
@@ -685,6 +712,8 @@ func c18StateStr(a c18State) string {
 type c18Checker struct {
 	mu      sync.Mutex
 	models  chan *Model
+	multi   chan *Model // fmtmulti model processes
+	stdin   *Model      // fmtstdin model process
 	variant string
 	r       *Result
 
@@ -709,6 +738,10 @@ func (c *c18Checker) implView(run *c18Run) map[string]any {
 
 // check evaluates (1) the property on the observed run, (2) observed run = model run.
 func (c *c18Checker) check(s c18Scenario, o c18Oracle, run *c18Run) {
+	if len(s.More) > 0 {
+		c.checkMulti(s, run)
+		return
+	}
 	// the model's run under the observed schedule (asked outside the lock, from a pool of model processes)
 	killed := run.Signal != ""
 	sched := make([]string, len(run.Events))
@@ -866,6 +899,336 @@ func (c *c18Checker) check(s c18Scenario, o c18Oracle, run *c18Run) {
 	}
 	if len(r.Samples) < 4 && (s.Fault.Kind != "none" || len(r.Samples) == 0) {
 		r.Sample(map[string]any{"scenario": s.id(), "trace": obs, "exit": ist, "target": c18StateStr(run.Target), "temp": c18StateStr(run.Temp)})
+	}
+}
+
+// ---------- several files in one invocation ----------
+
+func (run *c18Run) stateOf(s c18Scenario, i int) c18State {
+	if i == 0 {
+		return run.Target
+	}
+	return run.Others[s.all()[i].Name]
+}
+
+// checkMulti: the property and the correspondence for `evy fmt -c|-w f1 … fn`.
+func (c *c18Checker) checkMulti(s c18Scenario, run *c18Run) {
+	files := s.all()
+	os_ := make([]c18Oracle, len(files))
+	for i, f := range files {
+		os_[i] = c18OracleFor(f)
+	}
+	killed := run.Signal != ""
+	// temp name per file: the createtemp seen while that file was being processed
+	tmps := make([]string, len(files))
+	for i := range tmps {
+		tmps[i] = fmt.Sprintf("unused-tmp-%d", i)
+	}
+	cur := 0
+	sched := make([]string, len(run.Events))
+	for k, e := range run.Events {
+		sched[k] = e.outcome()
+		if e.Call == "openr" {
+			for i, f := range files {
+				if f.Name == e.Path {
+					cur = i
+				}
+			}
+		}
+		if e.Call == "createtemp" {
+			tmps[cur] = e.Path
+		}
+	}
+	kill := len(run.Events) + 1000
+	if killed {
+		kill = len(run.Events)
+	}
+	fl := make([]SX, len(files))
+	for i, f := range files {
+		parts := []SX{}
+		for _, p := range os_[i].Parts {
+			if p.OK {
+				parts = append(parts, Lst(Str(c18B2S(p.Src)), Str(c18B2S(p.Out))))
+			} else {
+				parts = append(parts, Lst(Str(c18B2S(p.Src)), Sym("none")))
+			}
+		}
+		fl[i] = Lst(Str(f.Name), Str(tmps[i]), Lst(Str(c18B2S(f.Content)), Int(int64(f.Mode))), LstOf(parts), Str(c18B2S(os_[i].Joined)))
+	}
+	sc := make([]SX, len(sched))
+	for i, x := range sched {
+		sc[i] = Sym(x)
+	}
+	q := Lst(Sym(c.variant), Sym(s.Cmd), Bool(true), LstOf(fl), LstOf(sc), Int(int64(kill)))
+	t0 := time.Now()
+	model := <-c.multi
+	ans, aerr := model.Ask(q.String())
+	c.multi <- model
+	dt := time.Since(t0)
+
+	c.mu.Lock()
+	defer c.mu.Unlock()
+	c.modelTime += dt
+	r := c.r
+	kinds := ""
+	for _, f := range files {
+		kinds += f.Label[:1]
+	}
+	r.Count(s.id()+"|"+kinds, true)
+	r.Dist("cmd:" + s.Cmd)
+	r.Dist("fault:" + s.Fault.Kind)
+	r.Dist(fmt.Sprintf("multi:%d-files", len(files)))
+	viol := func(kind, key, detail string, model any) {
+		impl := c.implView(run)
+		for i, f := range files {
+			impl["file:"+f.Name] = c18StateStr(run.stateOf(s, i))
+		}
+		r.Violate(Violation{Kind: kind, Key: key, Detail: detail, Input: c.input(s), Impl: impl, Model: model})
+	}
+
+	// ----- the property -----
+	allClean, allParse, failed := true, true, false
+	for i, f := range files {
+		o := os_[i]
+		st := run.stateOf(s, i)
+		orig := c18State{Present: true, Data: f.Content, Mode: f.Mode}
+		switch {
+		case !st.Present:
+			viol("property", "target-lost", "file "+f.Name+" no longer exists after the run", nil)
+		case bytes.Equal(st.Data, orig.Data):
+		case s.Cmd == "write" && o.All && bytes.Equal(st.Data, o.Joined) && !failed:
+		default:
+			viol("property", "target-damaged-multi", "file "+f.Name+" holds neither its complete original nor the complete formatted text (or was rewritten after an earlier file had failed)", nil)
+		}
+		if st.Present && st.Mode != orig.Mode {
+			viol("property", "fmt-w-mode-not-preserved", fmt.Sprintf("permission bits of %s changed from %04o to %04o", f.Name, orig.Mode, st.Mode), nil)
+		}
+		if s.Cmd != "write" && !c18StateEq(st, orig) {
+			viol("property", "untouched-violated", "file "+f.Name+" changed although nothing may be written", nil)
+		}
+		if s.Cmd == "write" && run.Exit == 0 && !(o.All && bytes.Equal(st.Data, o.Joined)) {
+			viol("property", "success-without-formatted-text", "exit status 0 from fmt -w but "+f.Name+" does not hold the formatted text", nil)
+		}
+		allClean = allClean && o.Clean
+		allParse = allParse && o.All
+		if !o.All {
+			failed = true // fmtCmd.Run returns at the first error: later files must stay untouched
+		}
+	}
+	if s.Cmd == "check" {
+		if run.Exit == 0 && !allClean {
+			viol("property", "check-false-positive-multi", "fmt -c f1 … fn exits 0 although not every file is in formatted form", nil)
+		}
+		if s.Fault.Kind == "none" && allClean && run.Exit != 0 {
+			viol("property", "check-false-negative-multi", "fmt -c f1 … fn exits non-zero although every file is formatted", nil)
+		}
+		for _, e := range run.Events {
+			switch e.Call {
+			case "openr", "fstat", "read", "closer":
+			default:
+				viol("property", "write-call-without-write-mode", "a file-system call other than reading a listed file was made in check mode", nil)
+			}
+		}
+	}
+	if !allParse && run.Exit == 0 {
+		viol("property", "unparsable-exit-zero", "a file does not parse, but exit status 0", nil)
+	}
+	if len(run.Extra) > 0 {
+		viol("property", "unexpected-directory-entry", "something other than the listed files and one evyNNN temp file is in the directory", nil)
+	}
+	if run.TempName != "" {
+		r.Dist("temp-left:" + map[bool]string{true: "after-kill", false: "after-error-exit"}[killed])
+		unlinkFailed := false
+		for _, e := range run.Events {
+			if e.Call == "unlink" && e.Errno != "" {
+				unlinkFailed = true
+			}
+		}
+		if !killed && !unlinkFailed && c.variant == "in-force" {
+			viol("property", "temp-file-left-behind", "the process exited (was not killed) and left its temp file in the directory", nil)
+		}
+	}
+
+	// ----- correspondence -----
+	if aerr != nil {
+		viol("correspondence", "model-crash", aerr.Error(), nil)
+		return
+	}
+	x, perr := ParseSX(ans)
+	if perr != nil || x.Kind != "lst" || len(x.L) != 5 {
+		viol("correspondence", "model-output", fmt.Sprintf("%.200s", ans), nil)
+		return
+	}
+	r.Validated++
+	mstatus := x.L[1].String()
+	mtrace := []string{}
+	for _, e := range x.L[2].L {
+		mtrace = append(mtrace, e.String())
+	}
+	obs := []string{}
+	for _, e := range run.Events {
+		obs = append(obs, e.sx())
+	}
+	mview := map[string]any{"status": mstatus, "trace": mtrace}
+	for i, f := range files {
+		if i < len(x.L[3].L) {
+			mview["file:"+f.Name] = c18StateStr(c18DecState(x.L[3].L[i]))
+		}
+	}
+	if strings.Join(obs, "\n") != strings.Join(mtrace, "\n") {
+		k := "end"
+		for i := 0; i < len(obs) || i < len(mtrace); i++ {
+			if i >= len(obs) || i >= len(mtrace) || obs[i] != mtrace[i] {
+				if i < len(run.Events) {
+					k = run.Events[i].Call
+				}
+				break
+			}
+		}
+		viol("correspondence", "call-list-differs-multi:"+k, "the system calls of the multi-file invocation are not the model's program (fmt_files) under the same outcomes", mview)
+		return
+	}
+	ist := fmt.Sprintf("(exit %d)", run.Exit)
+	if killed {
+		ist = "killed"
+		if run.Signal != "SIGKILL" {
+			ist = "signal:" + run.Signal
+		}
+	}
+	if ist != mstatus {
+		viol("correspondence", "status-differs-multi", "exit status: implementation "+ist+", model "+mstatus, mview)
+	}
+	for i, f := range files {
+		if i < len(x.L[3].L) && !c18StateEq(run.stateOf(s, i), c18DecState(x.L[3].L[i])) {
+			viol("correspondence", "target-state-differs-multi", "final state of "+f.Name+" differs from the model's", mview)
+		}
+	}
+	for i := range files {
+		if run.TempName != "" && tmps[i] == run.TempName && i < len(x.L[4].L) && !c18StateEq(run.Temp, c18DecState(x.L[4].L[i])) {
+			viol("correspondence", "temp-state-differs-multi", "left-over temp file differs from the model's", mview)
+		}
+	}
+	if run.TempName == "" {
+		for i := range files {
+			if i < len(x.L[4].L) && c18DecState(x.L[4].L[i]).Present {
+				viol("correspondence", "temp-state-differs-multi", "the model leaves a temp file, the implementation does not", mview)
+			}
+		}
+	}
+}
+
+// c18MultiFile makes the file at position pos of a multi-file invocation: kind F (formatted),
+// U (unformatted), X (unparsable), T (txtar with an unformatted member); contents differ per position.
+func c18MultiFile(kind byte, pos int) c18File {
+	modes := []uint32{0o644, 0o600, 0o755, 0o664}
+	f := c18File{Name: fmt.Sprintf("f%d.evy", pos), Mode: modes[pos%len(modes)]}
+	switch kind {
+	case 'F':
+		f.Label, f.Content = "Formatted", []byte(fmt.Sprintf("v%d := %d\nprint v%d\n", pos, pos+1, pos))
+	case 'U':
+		f.Label, f.Content = "Unformatted", []byte(fmt.Sprintf("v%d:=%d\nprint   v%d\n", pos, pos+1, pos))
+	case 'X':
+		f.Label, f.Content = "Xunparsable", []byte(fmt.Sprintf("v%d := \nprint )\n", pos))
+	default:
+		f.Name = fmt.Sprintf("f%d.txtar", pos)
+		f.Label, f.Content = "Txtar-unformatted", []byte(fmt.Sprintf("-- a.evy --\nw%d:=1\n-- b.txt --\nkeep  \n", pos))
+	}
+	return f
+}
+
+func c18MultiScenario(kinds string, cmd string) c18Scenario {
+	s := c18Scenario{Cmd: cmd, Fault: c18Fault{Kind: "none"}}
+	for i := 0; i < len(kinds); i++ {
+		f := c18MultiFile(kinds[i], i)
+		if i == 0 {
+			s.File = f
+		} else {
+			s.More = append(s.More, f)
+		}
+	}
+	return s
+}
+
+// all words of length n over the alphabet
+func c18Words(alphabet string, n int) []string {
+	if n == 0 {
+		return []string{""}
+	}
+	var out []string
+	for _, w := range c18Words(alphabet, n-1) {
+		for i := 0; i < len(alphabet); i++ {
+			out = append(out, w+string(alphabet[i]))
+		}
+	}
+	return out
+}
+
+// ---------- stdin mode ----------
+
+func (c *c18Checker) checkStdin(env *c18Env, cmdName string, input []byte, label string) {
+	args := []string{"fmt"}
+	switch cmdName {
+	case "write":
+		args = append(args, "-w")
+	case "check":
+		args = append(args, "-c")
+	}
+	ctx, cancel := context.WithTimeout(context.Background(), 30*time.Second)
+	defer cancel()
+	cmd := exec.CommandContext(ctx, env.evy, args...)
+	cmd.Stdin = bytes.NewReader(input)
+	var stdout, stderr bytes.Buffer
+	cmd.Stdout, cmd.Stderr = &stdout, &stderr
+	cmd.Dir = env.work
+	err := cmd.Run()
+	exit := 0
+	var ee *exec.ExitError
+	if errors.As(err, &ee) {
+		exit = ee.ExitCode()
+	} else if err != nil {
+		exit = -1
+	}
+	out, ok := c18Format(input)
+	o := Sym("none")
+	if ok {
+		o = Str(c18B2S(out))
+	}
+	c.mu.Lock()
+	defer c.mu.Unlock()
+	ans, aerr := c.stdin.Ask(Lst(Sym(cmdName), Str(c18B2S(input)), o).String()) // one model process: asked under the lock
+	r := c.r
+	r.Count("stdin|"+cmdName+"|"+label+"|"+string(input), true)
+	r.Dist("stdin:" + cmdName)
+	in := map[string]any{"mode": "stdin", "cmd": cmdName, "stdin": string(input)}
+	impl := map[string]any{"exit": exit, "stdout": stdout.String(), "stderr": strings.TrimSpace(stderr.String())}
+	want := 1
+	switch {
+	case cmdName == "check" && ok && bytes.Equal(out, input), cmdName == "plain" && ok:
+		want = 0
+	}
+	if (exit == 0) != (want == 0) {
+		r.Violate(Violation{Kind: "property", Key: "stdin-status-wrong:" + cmdName, Detail: "stdin mode: exit status 0 exactly for formatted (-c) / parsable (plain) input; -w without files is refused", Input: in, Impl: impl})
+	}
+	if cmdName == "plain" && ok && !bytes.Equal(stdout.Bytes(), out) {
+		r.Violate(Violation{Kind: "property", Key: "stdin-output-wrong", Detail: "plain fmt on stdin does not print the formatted text", Input: in, Impl: impl})
+	}
+	if cmdName != "plain" && stdout.Len() > 0 && exit != 0 && cmdName == "check" {
+		r.Violate(Violation{Kind: "property", Key: "stdin-check-prints", Detail: "fmt -c on stdin printed to stdout", Input: in, Impl: impl})
+	}
+	if aerr != nil {
+		r.Violate(Violation{Kind: "correspondence", Key: "model-crash", Detail: aerr.Error(), Input: in})
+		return
+	}
+	x, perr := ParseSX(ans)
+	if perr != nil || x.Kind != "lst" || len(x.L) != 3 {
+		r.Violate(Violation{Kind: "correspondence", Key: "model-output", Detail: ans, Input: in})
+		return
+	}
+	r.Validated++
+	mstdout := c18S2B(x.L[2].S)
+	if x.L[1].String() != fmt.Sprintf("(exit %d)", exit) || (exit == 0 && !bytes.Equal(mstdout, stdout.Bytes())) {
+		r.Violate(Violation{Kind: "correspondence", Key: "stdin-differs", Detail: "stdin mode: status/stdout differ from the model (fmt_stdin)", Input: in, Impl: impl,
+			Model: map[string]any{"status": x.L[1].String(), "stdout": string(mstdout)}})
 	}
 }
 
@@ -1085,6 +1448,24 @@ func runC18(cfg Config, r *Result) {
 		chk.models <- model
 	}
 
+	chk.multi = make(chan *Model, 3)
+	for i := 0; i < 3; i++ {
+		model, err := StartModel("fmtmulti")
+		if err != nil {
+			r.Violate(Violation{Kind: "correspondence", Key: "model-start", Detail: err.Error()})
+			return
+		}
+		defer model.Close()
+		chk.multi <- model
+	}
+	if m, err := StartModel("fmtstdin"); err == nil {
+		chk.stdin = m
+		defer m.Close()
+	} else {
+		r.Violate(Violation{Kind: "correspondence", Key: "model-start", Detail: err.Error()})
+		return
+	}
+
 	if cfg.Replay != "" {
 		c18Replay(cfg, env, chk)
 		return
@@ -1147,7 +1528,7 @@ func runC18(cfg Config, r *Result) {
 			var err error
 			ok := false
 			learned := 0
-			for attempt := 0; attempt < 12 && !ok; attempt++ {
+			for attempt := 0; attempt < 20 && !ok; attempt++ {
 				sc := s
 				if learned > 0 {
 					sc.Fault.When = learned // the per-thread index seen in the run that was missed
@@ -1187,9 +1568,8 @@ func runC18(cfg Config, r *Result) {
 		})
 	}
 	// fault-free run, then every single fault of it
-	enumerate := func(f c18File, o c18Oracle, cmdName string) {
+	enumerateS := func(s c18Scenario, o c18Oracle) {
 		submit(func() {
-			s := c18Scenario{File: f, Cmd: cmdName, Fault: c18Fault{Kind: "none"}}
 			base, err := env.run(s)
 			if err != nil {
 				fail(s, err)
@@ -1197,9 +1577,58 @@ func runC18(cfg Config, r *Result) {
 			}
 			chk.check(s, o, base)
 			for _, ft := range c18FaultsOf(base, errnos) {
-				inject(c18Scenario{File: f, Cmd: cmdName, Fault: ft}, o, base)
+				si := s
+				si.Fault = ft
+				inject(si, o, base)
 			}
 		})
+	}
+	enumerate := func(f c18File, o c18Oracle, cmdName string) {
+		enumerateS(c18Scenario{File: f, Cmd: cmdName, Fault: c18Fault{Kind: "none"}}, o)
+	}
+
+	// several files in one invocation: every order of Formatted / Unformatted / Xunparsable for 2 files
+	// (thorough: also all orders of 3 files, and samples of 4 including a txtar), with -c and -w
+	words := c18Words("FUX", 2)
+	if thorough {
+		words = append(words, c18Words("FUX", 3)...)
+		for i := 0; i < 12; i++ {
+			w := make([]byte, 4)
+			for j := range w {
+				w[j] = "FUXT"[cfg.Rng.Intn(4)]
+			}
+			words = append(words, string(w))
+		}
+	} else {
+		all3 := c18Words("FUX", 3)
+		for i := 0; i < 4; i++ {
+			words = append(words, all3[cfg.Rng.Intn(len(all3))])
+		}
+		words = append(words, "UFF", "FUTX")
+	}
+	nMulti := 0
+	for _, w := range words {
+		for _, cmdName := range []string{"check", "write"} {
+			plain(c18MultiScenario(w, cmdName), c18Oracle{})
+			nMulti++
+		}
+	}
+	// faults on the k-th file's calls (thorough): every call index of the whole invocation
+	if thorough {
+		for _, wc := range [][2]string{{"UUF", "write"}, {"FUX", "write"}, {"FFU", "check"}, {"UTU", "write"}} {
+			enumerateS(c18MultiScenario(wc[0], wc[1]), c18Oracle{})
+		}
+	}
+	r.Note("multi-file invocations: %d fault-free runs over the file-kind orders %v with -c and -w%s", nMulti, words,
+		map[bool]string{true: "; single faults at every call index of UUF/-w, FUX/-w, FFU/-c, UTU/-w", false: ""}[thorough])
+
+	// stdin mode (no strace: no file-system call is involved)
+	for _, in := range []struct{ label, src string }{{"formatted", "x := 1\nprint x\n"}, {"unformatted", "x:=1\nprint   x\n"},
+		{"unparsable", "x := \n"}, {"empty", ""}} {
+		for _, cmdName := range []string{"check", "plain", "write"} {
+			in, cmdName := in, cmdName
+			submit(func() { chk.checkStdin(env, cmdName, []byte(in.src), in.label) })
+		}
 	}
 
 	nFixed := len(c18FixedFiles())
